@@ -59,6 +59,10 @@ func runC19(c *ctx) {
 	jwkJSON, _ := json.Marshal(sharedClient.ClientJWK())
 	key32 := base64.StdEncoding.EncodeToString([]byte("0123456789abcdef0123456789abcdef"))
 	var scs []c19Scenario
+	// a LONG wait-before period: a request that finishes after (graceful - wait-before) but well before graceful must be drained - the deadline clock starts
+	// after the wait, not at the signal; a request arriving during the wait is served, one arriving after it is refused
+	scs = append(scs, c19Scenario{1200, 2600, syscall.SIGTERM, []c19Req{{-200, 2100}, {600, 100}, {1500, 20}}})
+	scs = append(scs, c19Scenario{1000, 2400, syscall.SIGINT, []c19Req{{-100, 1750}, {300, 1300}, {1300, 20}}})
 	for _, wg := range [][2]int{{0, 1600}, {400, 2200}, {400, 1800}} {
 		w, g := wg[0], wg[1]
 		for _, sig := range []syscall.Signal{syscall.SIGTERM, syscall.SIGINT} {
@@ -71,7 +75,7 @@ func runC19(c *ctx) {
 		}
 	}
 	if !c.thorough() {
-		scs = scs[:10]
+		scs = scs[:12]
 	}
 	var wg sync.WaitGroup
 	for _, sc := range scs {
